@@ -286,12 +286,12 @@ func mkSelect(initial, insert, del, modify *bool) *ovsdb.MonitorSelect {
 // ---- schemas ----
 
 type baseSpec struct {
-	typ                    string
-	enum                   []interface{}
-	minI, maxI             *int
-	minR, maxR             *float64
-	minL, maxL             *int
-	refTable, refType      string
+	typ               string
+	enum              []interface{}
+	minI, maxI        *int
+	minR, maxR        *float64
+	minL, maxL        *int
+	refTable, refType string
 }
 
 func (b baseSpec) json() string {
